@@ -76,7 +76,11 @@ func runOne(j job) result {
 
 func main() {
 	in := bufio.NewReaderSize(os.Stdin, 1<<20)
-	out := bufio.NewWriter(os.Stdout)
+	// the protocol keeps the original standard output; anything the code under
+	// test prints to os.Stdout (default writers of the library) goes to stderr
+	proto := os.Stdout
+	os.Stdout = os.Stderr
+	out := bufio.NewWriter(proto)
 	dec := json.NewDecoder(in)
 	for {
 		var j job
